@@ -23,7 +23,7 @@ RULE = ("header = valid base header + exactly one violation drawn from: required
         "unregistered name under strict checking, caller-registered parameter with wrong type / required but missing; or no violation "
         "(caller-registered parameter with right type, unregistered name with strict off) which MUST be accepted; caller re-registration of kid / cty as required. Position: protected, "
         "unprotected, per-recipient (also of the second of two recipients, every-recipient and any-recipient validation); direction: produce (joserfc serializes) and consume (reference-minted valid token); JWS compact / "
-        "flattened / general / RFC 7797, JWE compact / flattened / general over dir, A128KW, ECDH-ES, PBES2, A128GCMKW. distinct = "
+        "flattened / general / RFC 7797, JWE compact / flattened / general over dir, A128KW, ECDH-ES, PBES2, A128GCMKW; JWE JSON objects also reused as a template (clean header encrypted or read first, then the header under test put into the same object). distinct = "
         "(rule, parameter, JSON type, position, direction, entry).")
 ASSUMPTIONS = ["DONT_CARE: bool where int is demanded (p2c: true), crit: [] and crit naming standard parameters, non-URL strings for jku/x5u, "
                "b64 given to the plain joserfc.jws functions with strict off",
